@@ -293,8 +293,15 @@ func (o *ovsdbClient) connect(ctx context.Context, reconnect bool) error {
 				continue
 			}
 
-			// Restart all monitors; each monitor will handle purging
-			// the cache if necessary
+			// With several monitors every reply carries complete contents:
+			// purge once, before the first of them repopulates the cache.
+			// A single monitor handles purging itself, depending on whether
+			// the server can resume from its last transaction.
+			if len(db.monitors) > 1 {
+				db.cacheMutex.Lock()
+				db.cache.Purge(db.model)
+				db.cacheMutex.Unlock()
+			}
 			for id, request := range db.monitors {
 				err := o.monitor(ctx, MonitorCookie{DatabaseName: dbName, ID: id}, true, request)
 				if err != nil {
@@ -1065,7 +1072,7 @@ func (o *ovsdbClient) monitor(ctx context.Context, cookie MonitorCookie, reconne
 	// server. In this case the reply contains only updates to the existing
 	// cache data, while otherwise it includes complete DB data so we must
 	// purge to get rid of old rows.
-	if reconnecting && (len(db.monitors) > 1 || !lastTransactionFound) {
+	if reconnecting && len(db.monitors) == 1 && !lastTransactionFound {
 		db.cache.Purge(db.model)
 	}
 
